@@ -79,6 +79,7 @@ type Unit struct {
 	loopMarks []int
 	initArrays map[string]Term
 	allocTypes map[int]types.Type
+	randomUUID map[Val]bool
 	allocPC    map[int]Term
 	objinvDone map[string]bool
 	globalAxioms []string
